@@ -1601,6 +1601,8 @@ func (is *indexSearch) updateTSIDsForPrefix(prefix []byte, tsids *uint64set.Set,
 	for ts.NextItem() {
 		item := ts.Item
 		if !bytes.HasPrefix(item, prefix) {
+			// entries of another measurement follow: the deleted series are subtracted on this exit too
+			tsids.Subtract(is.deleted)
 			return nil
 		}
 		tail := item[len(prefix):]
